@@ -39,6 +39,13 @@ ASSUMPTIONS = ["frame bodies are those that occur in tunnel/routing sessions (cE
 MCAST = ("224.0.23.12", 3671)
 
 
+# the points of low order on Curve25519 (RFC 7748 section 6.1: the shared secret is all zero), little endian
+LOW_ORDER = [bytes(32), bytes((1,)) + bytes(31),
+             bytes.fromhex("e0eb7a7c3b41b8ae1656e3faf19fc46ada098deb9c32b1fd866205165f49b800"),
+             bytes.fromhex("5f9c95bca3508c24b1d0b1559c83ef5b04445cc4581c8e86d8224eddd09f1157"),
+             bytes.fromhex("ec" + "ff" * 30 + "7f"), bytes.fromhex("ed" + "ff" * 30 + "7f"), bytes.fromhex("ee" + "ff" * 30 + "7f")]
+
+
 def preflight():
     return C.anchor_selftest()
 
@@ -52,6 +59,9 @@ def gen(seed: int, tier: str) -> dict[str, Any]:
                        "user_id": rng.randint(1, 127), "user_pw": "pw%d" % rng.randrange(10 ** 6),
                        "dev_pw": "dev%d" % rng.randrange(10 ** 6), "n_sends": rng.randint(1, 4),
                        "hs_flips": sorted(rng.sample(range(50 * 8), 24)), "batch": 1,
+                       # SessionResponses whose public key is a point of low order (the shared secret would be all zero) under a
+                       # MAC that is right for that key: a broken / rogue server must be refused like any other failed handshake
+                       "hs_degenerate": sorted(rng.sample(range(7), rng.choice([0, 1, 2, 7]))),
                        # several handshakes on one SecureTunnel / SecureSession object (what a reconnect does)
                        "reuse": rng.random() < 0.5, "reconnects": rng.choice([0, 1, 2, 3]),
                        # installations where the user password and the device authentication password are the same string
@@ -151,6 +161,43 @@ def run_session(plan):
                               f"SessionResponse with bit {bit} of its body flipped: connect() raised {exc!r}")
                 gw._secure_rx = orig
                 R.extra_faults["session_response_bit_flip"] += 1
+            for idx in cfg.get("hs_degenerate", []):
+                t = shared or mk()
+                orig = gw._secure_rx
+                point = LOW_ORDER[idx]
+
+                def rx2(conn, fr, point=point, orig=orig):
+                    if struct.unpack(">H", fr[2:4])[0] == W.SESSION_REQ and len(fr) == 6 + 8 + 32:
+                        cap = []
+                        real = conn.send_to_client
+                        conn.send_to_client = lambda d, lat=None: cap.append(d)
+                        orig(conn, fr)
+                        conn.send_to_client = real
+                        for d in cap:
+                            sid = struct.unpack(">H", d[6:8])[0]
+                            mac = C.session_response_mac(gw.dev_key, sid, fr[14:46], point)
+                            real(W.frame(W.SESSION_RES, d[6:8] + point + mac))
+                        return
+                    orig(conn, fr)
+
+                gw._secure_rx = rx2
+                try:
+                    async with asyncio.timeout(20):
+                        await t.connect()
+                    R.violate("C28.handshake-mac", "low-order-server-key-accepted",
+                              f"SessionResponse with the low-order public key {point.hex()}: handshake completed")
+                    await t.disconnect()
+                except (CommunicationError, TimeoutError):
+                    R.probes["low_order_server_key_rejected"] += 1
+                except Exception as exc:  # pylint: disable=broad-except
+                    import traceback
+                    tb = traceback.extract_tb(exc.__traceback__)
+                    inner = next((f for f in reversed(tb) if "/xknx/" in f.filename), tb[-1])
+                    R.violate("C28.handshake-mac", f"low-order-server-key:{type(exc).__name__}@{inner.name}",
+                              f"SessionResponse with the low-order public key {point.hex()}: connect() raised {exc!r} - not the "
+                              "error a caller (or the reconnect loop) handles")
+                gw._secure_rx = orig
+                R.extra_faults["session_response_low_order_key"] += 1
             # and the untouched handshake works (on a fresh object, or on the one that saw all the rejected ones), repeatedly
             t = shared or mk()
             for k in range(1 + cfg.get("reconnects", 0)):
